@@ -102,10 +102,13 @@ CLAIMS = {
  "C20": dict(
   text="Decision logic stated outright: for every sampler wiring table that passes the decidable predicate WiringOK (equivalently: sample does not overwrite a constructor-supplied generator) the user's generator is the "
        "source in use on every route on which the class accepts it (constructor, sample call, top-level sample_posterior); the pinned MiniPCNSMC table is proved to discard it on two routes (repaired by a fix: commit). "
-       "The tables are re-extracted from the current source on every run (inspect.signature + probe) and the predicate evaluated on them; paired runs with identical explicit sources and different ambient entropy must be bit-identical.",
+       "NON-INTERFERENCE (Model/Entropy.lean, Props/C20Entropy.lean): a run is ANY computation drawing values at named consumption sites (proposal construction/training/draws, resampling, kernel, final enlargement; data-dependent numbers of draws included); "
+       "if every reachable site reads the user's generator the run equals the single-generator run on it (exec_eq_run1), is bit-identical under any two ambient entropies (reproducible), leaves the ambient generator untouched and advances the user's generator by exactly its draws (user_generator_advanced); "
+       "with WiringOK, an accepted route and a seeded proposal that is every run (runs_reproducible); one ambient site suffices to lose it (pinned_not_reproducible, unseeded_flow_not_reproducible, by evaluation). "
+       "The tables are re-extracted from the current source on every run (inspect.signature + probe) and the predicate evaluated on them; the model's same/different prediction per class and route is compared with the paired runs; paired runs with identical explicit sources and different ambient entropy must be bit-identical.",
   note=TB + "The theorem is about argument routing; bit-reproducibility of the numerical libraries given the same seeds is established by the paired runs (exploration supporting the tie), not by proof. Ambient entropy is controlled by "
        "patching argument-less default_rng, the ArrayRNG double and torch's global seed. Emcee/EmceeSMC accept no generator (numpy global state): outside the quantifier.",
-  technique="Lean 4 proof (decision table, regenerated from source) + paired-run non-interference check"),
+  technique="Lean 4 proof (non-interference over all computations by induction; decision table regenerated from source) + paired-run correspondence of the same/different prediction"),
  "C03": dict(
   text="Theorems about the model of Flow.log_prob / sample_and_log_prob (neural density `base` abstract): the log-density returned with a draw equals log_prob at the draw for every base and every composite data transform "
        "(all on/off combinations, logit and probit) outside the clipping margin; draws lie strictly inside declared bounds (periodic ones in [lo,hi)); in 1-D the proposal integrates to one over the native interval given a normalised base "
